@@ -67,14 +67,14 @@ CAP = 25
 def plan(tier):
     env = {"NUMBA_BOUNDSCHECK": "1", "OMP_WAIT_POLICY": "passive"}
     if tier == "quick":
-        return dict(n_cases=150, shards=2, classes=CLASSES, timeout_s=900, env=env,
-                    min_evals={"pairs_admissible": 450, "one_to_one": 450, "thickness_value": 450, "greedy_maximal": 450,
-                               "greedy_reference": 400, "rigid_motion": 110, "voxel_scaling": 110, "direction_swap": 110,
-                               "kernel_candidates": 220, "kernel_boundscheck": 110, "kernel_threads": 110})
-    return dict(n_cases=2400, shards=16, classes=CLASSES, timeout_s=3000, env=env,
-                min_evals={"pairs_admissible": 8000, "one_to_one": 8000, "thickness_value": 8000, "greedy_maximal": 8000,
-                           "greedy_reference": 7000, "rigid_motion": 2000, "voxel_scaling": 2000, "direction_swap": 2000,
-                           "kernel_candidates": 4000, "kernel_boundscheck": 2000, "kernel_threads": 2000})
+        return dict(n_cases=180, shards=2, classes=CLASSES, timeout_s=900, env=env,
+                    min_evals={"pairs_admissible": 600, "one_to_one": 600, "thickness_value": 600, "greedy_maximal": 600,
+                               "greedy_reference": 550, "rigid_motion": 140, "voxel_scaling": 140, "direction_swap": 140,
+                               "kernel_candidates": 300, "kernel_boundscheck": 140, "kernel_threads": 140})
+    return dict(n_cases=1800, shards=16, classes=CLASSES, timeout_s=3000, env=env,
+                min_evals={"pairs_admissible": 6000, "one_to_one": 6000, "thickness_value": 6000, "greedy_maximal": 6000,
+                           "greedy_reference": 5500, "rigid_motion": 1500, "voxel_scaling": 1500, "direction_swap": 1500,
+                           "kernel_candidates": 3000, "kernel_boundscheck": 1500, "kernel_threads": 1500})
 
 
 # ---- call monitor: measure_thickness_cpu ---------------------------------------------------------
@@ -88,7 +88,7 @@ def _app_cpu(A):
         m1 = np.asarray(A["surface1_mask"]); m2 = np.asarray(A["surface2_mask"])
         n = len(P)
         ok = P.shape == (n, 3) and N.shape == (n, 3) and m1.shape == (n,) and m2.shape == (n,)
-        ok = ok and m1.dtype == np.bool_ and m2.dtype == np.bool_ and P.dtype.kind == "f" and N.dtype.kind == "f"
+        ok = ok and m1.dtype == np.bool_ and m2.dtype == np.bool_ and P.dtype == np.float64 and N.dtype == np.float64
         ok = ok and 20 <= n <= 600 and bool(np.isfinite(P).all()) and bool(np.isfinite(N).all()) and _unit_ok(N)
         v = float(A["voxel_size"]); mx = float(A["max_thickness_nm"]); ang = float(A["max_angle_degrees"])
         ok = ok and np.isfinite([v, mx, ang]).all() and v > 0 and mx > 0 and 1.0 <= ang <= 30.0
@@ -112,7 +112,9 @@ def _post_cpu(ctx, A, old, result):
     T = old["T"]
     info = {"T": T, "in_domain": False, "unique": False}
     ctx.c20_last = info
-    cap = min(CAP, int(A["max_matches_per_point"]))
+    # the driver never passes max_matches_per_point: the quantifier's bound (25) applies whatever the code's default is;
+    # a foreign caller that lowers the cap explicitly is outside the quantifier once a source reaches that cap
+    cap = CAP if getattr(ctx, "c20_driver_call", False) else min(CAP, int(A["max_matches_per_point"]))
     if T.margin < EPS or T.max_candidates() >= cap:
         for m in MON_CPU:
             ctx.ood(m)
@@ -227,6 +229,7 @@ def setup(ctx):
     ctx.mt = memthick
     ctx.numba = numba
     ctx.c20_last = None
+    ctx.c20_driver_call = False
     log = logging.getLogger("vmon.c20.null")
     log.addHandler(logging.NullHandler())
     log.setLevel(logging.CRITICAL + 1)
@@ -245,6 +248,11 @@ def setup(ctx):
     numba.set_num_threads(ctx.nt_default)
     ctx.bc_alive = alive and str(getattr(numba.config, "BOUNDSCHECK", None)) == "1"
     ctx.extra["boundscheck_probe"] = txt
+    try:
+        ctx.extra["numba_threading_layer"] = str(numba.threading_layer())
+    except Exception as e:
+        ctx.extra["numba_threading_layer"] = "unknown (%s)" % type(e).__name__
+    ctx.extra["omp_wait_policy_env"] = os.environ.get("OMP_WAIT_POLICY", "")
     ctx.extra["threads_compared"] = "1 vs %d (numba.set_num_threads in one process, NUMBA_NUM_THREADS=%d)" % (ctx.nt, ctx.nt_max)
     ctx.notes.append("find_matches_parallel is a numba dispatcher (parallel=True): the Python body never runs, no line/branch events; "
                      "observed via outputs, NUMBA_BOUNDSCHECK and thread-count comparison")
@@ -448,8 +456,12 @@ def nontrivial(case):
 # ---- driver --------------------------------------------------------------------------------------
 def _mt_call(ctx, label, c, P, N, m1, m2, voxel, max_nm, direction, num_threads=None):
     ctx.c20_last = None
-    ok, r = ctx.call(label, ctx.mt.measure_thickness_cpu, P.copy(), N.copy(), m1.copy(), m2.copy(), voxel,
-                     max_thickness_nm=max_nm, max_angle_degrees=c["ang"], direction=direction, num_threads=num_threads, logger=ctx.log)
+    ctx.c20_driver_call = True
+    try:
+        ok, r = ctx.call(label, ctx.mt.measure_thickness_cpu, P.copy(), N.copy(), m1.copy(), m2.copy(), voxel,
+                         max_thickness_nm=max_nm, max_angle_degrees=c["ang"], direction=direction, num_threads=num_threads, logger=ctx.log)
+    finally:
+        ctx.c20_driver_call = False
     info = ctx.c20_last
     if ok:
         try:
